@@ -121,7 +121,7 @@ def requests_for(rng, kind, row, triple, quick):
     return vals
 
 
-def observe(kind, row, r, frames, before, after):
+def observe(kind, row, r, frames, before, after, retries=1):
     """canonical outcome comparable with the driver's `c06set` answer; also (raised, tx)"""
     setframes = [f for f in frames if f[0] != "unencodable" and f[0].startswith(("Set", "EcomaxControl"))]
     tx = []
@@ -137,12 +137,58 @@ def observe(kind, row, r, frames, before, after):
         out = "typeerror"
     elif r == ("ret", True) and not frames:
         out = "noop"
-    elif r == ("ret", False) and len(tx) == 1 and isinstance(tx[0], int) and not bad_frames:
+    elif r == ("ret", False) and len(tx) == retries and isinstance(tx[0], int) and len(set(tx)) == 1 and not bad_frames:
         out = f"transmit:{tx[0]}"
     else:
         out = f"other:{r}:{frames}"
     txs = ",".join(str(x) for x in tx) if tx else "-"
     return f"{out} {after} {txs}", r == ("exc", "ValueError"), tx
+
+
+ROUTES = ("parameter.set", "Device.set", "parameter.set_nowait", "Device.set_nowait", "turn_on/turn_off", "turn_on_nowait/turn_off_nowait")
+
+
+def pick_route(k, p, v):
+    """every public way of setting a value: the call itself, the device wrapper, their fire-and-forget forms,
+    and the switch conveniences (only when the requested value is one they can express)"""
+    if hasattr(p, "turn_on") and v in ("on", "off") and k % 3 != 2:
+        return ROUTES[4] if k % 3 == 0 else ROUTES[5]
+    if k % 5 == 0:
+        return "Device.set"
+    if k % 7 == 3:
+        return "parameter.set_nowait"
+    if k % 11 == 6:
+        return "Device.set_nowait"
+    return "parameter.set"
+
+
+async def run_route(w, dev, p, name, v, route):
+    """one set request through the named public route, run to its end; result as pd.run_set gives it
+    (for the fire-and-forget forms: the outcome of the task the call left on the device)"""
+    import asyncio
+    if route in (None, "parameter.set", "parameter.set after re-report"):
+        return await pd.run_set(w, lambda: p.set(v, retries=1, timeout=0.01))
+    if route == "Device.set":
+        return await pd.run_set(w, lambda: dev.set(name, v, retries=1))
+    if route == "turn_on/turn_off":
+        return await pd.run_set(w, lambda: (p.turn_on() if v == "on" else p.turn_off()))
+    before = set(p.device.tasks) | set(dev.tasks)
+
+    async def fire():
+        if route == "parameter.set_nowait":
+            p.set_nowait(v, retries=1, timeout=0.01)
+        elif route == "Device.set_nowait":
+            dev.set_nowait(name, v, retries=1)
+        elif v == "on":
+            p.turn_on_nowait()
+        else:
+            p.turn_off_nowait()
+        new = [t for t in (set(p.device.tasks) | set(dev.tasks)) - before]
+        if len(new) != 1:
+            raise LookupError(f"{len(new)} tasks left by a fire-and-forget call")
+        return await new[0]
+
+    return await pd.run_set(w, fire)
 
 
 HANDLES = ("device.data", "device.data", "kept from subscribe", "kept from subscribe(on_change)")
@@ -217,16 +263,15 @@ async def run_async(ctx, res, only=None):
                     held = (p.values.value, p.values.min_value, p.values.max_value)
                     if only is None and held != triple and not (kind == "control") and k == 0:
                         late_corr.append((dict(table=tname, row=row["name"], triple=list(triple)), list(triple), list(held)))
-                    via_device = (k % 5 == 0)
-                    if via_device:
-                        r, frames = await pd.run_set(w, lambda: dev.set(row["name"], v, retries=1))
-                    else:
-                        r, frames = await pd.run_set(w, lambda: p.set(v, retries=1, timeout=0.01))
+                    route = only.get("via") if only else pick_route(len(cases), p, v)
+                    r, frames = await run_route(w, dev, p, row["name"], v, route)
+                    via_device = route == "Device.set"
+                    retries = 5 if route in ROUTES[4:] else 1     # the switch conveniences use the default number of attempts
                     after = dev.data[row["name"]].values.value
-                    obs, raised, tx = observe(kind, row, r, frames, held, after)
+                    obs, raised, tx = observe(kind, row, r, frames, held, after, retries)
                     # judged against what the controller last REPORTED (for the control switch the triple is derived from the state)
                     cases.append(dict(table=tname, row=row["name"], kind=kind, conv=cw, triple=list(held if (kind == "control" or only) else triple), value=v,
-                                      via="Device.set" if via_device else "parameter.set", obs=obs, raised=raised, tx=tx,
+                                      via=route, obs=obs, raised=raised, tx=tx, retries=retries,
                                       after=after, result=list(r)))
         # re-report pass: the controller reports a row, then reports it AGAIN with the same value and other bounds
         # (no set in between, so nothing is pending); the next request is judged against the LAST reported bounds
@@ -252,7 +297,7 @@ async def run_async(ctx, res, only=None):
     lines = []
     for c in cases:
         val, lo, hi = c["triple"]
-        lines.append(f"c06set {c['conv']} {val} {lo} {hi} {pd.enc_val(c['value'])} 1")
+        lines.append(f"c06set {c['conv']} {val} {lo} {hi} {pd.enc_val(c['value'])} {c.get('retries', 1)}")
         lines.append(f"toraw {c['conv']} {pd.enc_val(c['value'])}")
     ans = driver_batch(lines)
     judge_lines, judge_idx = [], []
@@ -619,6 +664,6 @@ def replay(ctx):
     else:
         a, b = body.split("/")
         v = int(a) / int(b)
-    pd.run(run_async(dict(ctx, tier="quick"), res, only=dict(table=inp["table"], row=inp["row"], triple=inp["triple"], value=v,
+    pd.run(run_async(dict(ctx, tier="quick"), res, only=dict(table=inp["table"], row=inp["row"], triple=inp["triple"], value=v, via=inp.get("via"),
                                                               reports=inp.get("reports"), handle=inp.get("handle", "device.data"))))
     return res
